@@ -175,6 +175,8 @@ impl Check for C12 {
             PhaseSpec { name: "unwind", cases: textgen::unwind_count(), max_bytes: 0, exhaustive: true },
             // one fragment repeated 1..600 times inside each of 21 constructs
             PhaseSpec { name: "repeat", cases: textgen::repeat_count(), max_bytes: 0, exhaustive: true },
+            // multi-line strings: every mixture of LF / CR LF line ends and last characters of 1..3 lines
+            PhaseSpec { name: "mlstring", cases: textgen::mlstring_count(), max_bytes: 0, exhaustive: true },
             PhaseSpec {
                 name: "tokens",
                 cases: tier.pick(60_000, 1_200_000),
@@ -200,6 +202,7 @@ impl Check for C12 {
             "exhaustive" => exhaustive_string(index),
             "unwind" => textgen::unwind_text(index),
             "repeat" => textgen::repeat_text(index),
+            "mlstring" => textgen::mlstring_text(index),
             "tokens" => textgen::token_soup(&mut Dec::new(bytes)),
             "unicode" => textgen::unicode_soup(&mut Dec::new(bytes)),
             _ => textgen::mutate_corpus(&mut Dec::new(bytes), corpus::sources()),
@@ -233,7 +236,7 @@ impl Check for C12 {
     }
     fn rule(&self) -> String {
         format!(
-            "exhaustive: every string of <= L symbols over a {}-symbol alphabet with one representative per token class (L=3 quick, 4 thorough); tokens: random sequences of goml tokens and trivia; unicode: random Unicode strings; mutate: splice/truncate/duplicate mutations of the {} corpus sources. Oracle per input: lexer tokens tile [0,len) on char boundaries, tree text == input, tree leaves == lexer tokens, all node and diagnostic ranges inside the text, parsing twice gives equal trees and diagnostics. Non-trivial = input has >=1 parse error, or a multi-byte character, or a multi-line string marker; distinct by hash of the text.",
+            "exhaustive: every string of <= L symbols over a {}-symbol alphabet with one representative per token class (L=3 quick, 4 thorough); tokens: random sequences of goml tokens and trivia; unicode: random Unicode strings; mlstring: every multi-line string of 1..3 lines whose lines end in LF or CR LF independently and in one of 6 last characters (none, ASCII, blank, 2/3/4-byte), in 4 contexts (followed by code, at the end of the text with and without a final newline, followed by a blank tail); mutate: splice/truncate/duplicate mutations of the {} corpus sources. Oracle per input: lexer tokens tile [0,len) on char boundaries, tree text == input, tree leaves == lexer tokens, all node and diagnostic ranges inside the text, parsing twice gives equal trees and diagnostics. Non-trivial = input has >=1 parse error, or a multi-byte character, or a multi-line string marker; distinct by hash of the text.",
             ALPHABET.len(),
             corpus::sources().len()
         )
